@@ -20,7 +20,7 @@ from .runner import Stats, digest_dump, load_known, match_known
 
 PROP = "C20"
 PLAN = {"quick": {"budget_s": 50, "max_runs": 600}, "thorough": {"budget_s": 900, "max_runs": 40000, "real_writers": True}}
-KINDS = ["status", "create_zip", "make_zip", "zipbuilder", "download", "render", "download_fetcher"]
+KINDS = ["status", "create_zip", "make_zip", "zipbuilder", "download", "render", "download_fetcher", "mwzip_main"]
 BUFSIZES = [1, 64, 4096, 8192, 1 << 20]
 
 
@@ -70,11 +70,11 @@ def draw_scenario(seed, i, kind=None, real_writers=False):
                         "article": None if rng.random() < 0.3 else "A" * (rng.randrange(20000, 200000) if big else rng.randrange(1, 60)),
                         "sub": rng.random() < 0.3, "extra": rng.random() < 0.3})
         p["updates"] = ups
-    elif kind in ("create_zip", "make_zip", "zipbuilder"):
+    elif kind in ("create_zip", "make_zip", "zipbuilder", "mwzip_main"):
         big = rng.random() < 0.2
         p["tree"] = _tree(rng, rng.randint(1, 12 if not big else 5), 3000 if not big else 120000)
         p["prev_tree"] = _tree(rng, rng.randint(1, 4), 2000)
-        p["status_file"] = kind == "zipbuilder" and rng.random() < 0.7
+        p["status_file"] = kind in ("zipbuilder", "mwzip_main") and rng.random() < 0.7
         p["keep_tmpfiles"] = rng.random() < 0.4
         many = rng.random() < 0.08
         if many and real_writers:  # thorough tier only: several hundred positions
@@ -255,6 +255,32 @@ class Scenario:
         res = buildzip.ZipBuilder(cfg).build(None)
         if not res.success:
             raise RuntimeError(f"build failed: {res.error!r}")
+
+    # -- the mw-zip command itself -----------------------------------------------------
+    def prepare_mwzip_main(self):
+        self.prepare_zipbuilder()
+
+    def produce_mwzip_main(self, tracer):
+        """buildzip.main as the command line calls it (option validation, config object,
+        ZipBuilder); only the network side (environment, make_nuwiki) is a stand-in."""
+        from mwlib.apps import buildzip
+        from mwlib.core.metabook import Collection
+        from mwlib.utils.status import Status
+        Status.stdout = None
+        buildzip.make_nuwiki = self._stub_make_nuwiki()
+
+        class Env:
+            metabook = Collection()
+            images = None
+        Env.metabook.append_article("A")
+        buildzip.make_wiki_env_from_options = lambda metabook, wiki_options: Env
+        buildzip.setup_console_logging = lambda **kw: None
+        buildzip.main.callback(
+            output=self.published["zip"], posturl=None, getposturl=0, keep_tmpfiles=bool(self.p.get("keep_tmpfiles")),
+            status_file=self.published.get("status"), config=":en", imagesize=800,
+            metabook='{"type": "Collection", "version": 1, "items": [{"type": "Article", "title": "A"}]}',
+            collectionpage=None, noimages=False, logfile=None, username=None, password=None, domain=None,
+            title=None, subtitle=None, editor=None, script_extension=".php", args=())
 
     # -- download ------------------------------------------------------------------
     def prepare_download(self):
@@ -721,9 +747,14 @@ def explore_scenario(p, root, stats, only=None):
             code, rep = run_point(sc, f)
             stats["points"] += 1
             if kind == "crash":
-                if code != 137:
-                    raise HarnessError(f"scenario {p['index']}: crash@{k} child exited {code}, not 137 (non-deterministic trace?)")
-                Stats.merge(stats["faults"], {"crash": 1})
+                if code in (137, -9):
+                    Stats.merge(stats["faults"], {"crash": 1})
+                elif rep is not None and rep.get("fired"):
+                    # the killed process was a child the producer had forked; the producer went on
+                    Stats.merge(stats["faults"], {"crash-of-forked-helper": 1})
+                else:
+                    raise HarnessError(f"scenario {p['index']}: crash@{k} child exited {code} and the fault did not fire "
+                                       f"(non-deterministic trace?)")
             else:
                 if rep is None or not rep.get("fired"):
                     raise HarnessError(f"scenario {p['index']}: {kind}@{k} did not fire (exit {code})")
